@@ -14,3 +14,5 @@ open Femio.C20
 #print axioms C20_sum_total_back
 #print axioms C20_sum_broadcast_counterexample
 #print axioms C20_rows_cols_nonempty
+#print axioms C20_merge_closed_additive_nodup
+#print axioms C20_merge_closed_nodup
